@@ -85,3 +85,37 @@ def check_uniform(ctx, rule, accesses, want, what, consequence):
                       what, a.kind, norm(a.key), sorted(got), sorted(want), consequence),
                   desc="%s: %s key `%s` is %s" % (a.fi.short, a.kind, norm(a.key)[:40], sorted(want)))
     return len(accesses)
+
+
+def accesses_with_helpers(ctx, fi, table_name):
+    """Accesses of the local/parameter table `table_name` in fi, plus those made by repository helpers the table is handed
+    to: an access in the helper keyed by one of the helper's parameters is judged by the caller's argument expression."""
+    cg = ctx.cg
+    out = mapping_accesses(fi, lambda e: isinstance(e, ast.Name) and e.id == table_name)
+    for c in walk_no_nested(fi.node):
+        if not isinstance(c, ast.Call) or not any(isinstance(a, ast.Name) and a.id == table_name for a in c.args):
+            continue
+        order = cg.param_order.get(id(c))
+        if not order:
+            continue
+        targets = [t for (k, t) in cg.resolve_call(c, fi) if k == "precise"]
+        if len(targets) != 1:
+            continue
+        callee = targets[0]
+        bound = {}
+        for i, a in enumerate(c.args):
+            if i < len(order):
+                bound[order[i]] = a
+        for kw in c.keywords:
+            if kw.arg:
+                bound[kw.arg] = kw.value
+        tparams = [p for p, a in bound.items() if isinstance(a, ast.Name) and a.id == table_name]
+        for tp in tparams:
+            for acc in mapping_accesses(callee, lambda e, tp=tp: isinstance(e, ast.Name) and e.id == tp):
+                key = acc.key
+                if isinstance(key, ast.Name) and key.id in bound and not any(
+                        isinstance(x, ast.Name) and x.id == key.id and isinstance(x.ctx, ast.Store) for x in ast.walk(callee.node)):
+                    out.append(Access(fi, c, acc.kind + " (in %s)" % callee.short, bound[key.id]))
+                else:
+                    out.append(acc)
+    return out
